@@ -459,9 +459,11 @@ class RangeConstraint(Constraint):
                     )
                 ],
             )
-        # Convert value to numeric type
+        # Numbers are compared as they are: Python compares int with float exactly, whereas float(value)
+        # rounds integers beyond 2**53 and raises OverflowError for integers beyond the float range.
+        # Only text is converted.
         try:
-            numeric_value = float(value) if isinstance(value, int | float) else float(value)
+            numeric_value = value if isinstance(value, int | float) else float(value)
         except (ValueError, TypeError):
             return ValidationResult(
                 valid=False,
